@@ -1,4 +1,12 @@
-"""C08 — a server-side peer counts as authenticated only after a valid SASL exchange (also C10, C11 parts)."""
+"""C08 — a server-side peer counts as authenticated only after a valid SASL exchange (also C10, C11 parts).
+
+Layout (harness/c08_*.c, spec/auth_states.h):
+  P-stub units on dbus/dbus-auth.c   state handlers == specification's server state diagram; reply writers; parsers; the three
+                                     mechanisms; process_command; _dbus_auth_do_work (induction carried by the callee contract)
+  P-stub units on dbus-transport*.c  admission (_dbus_transport_try_to_authenticate), hand-over of leftover bytes, I/O guards
+  B units on real dbus-string.c / dbus-credentials.c   byte-exact line framing, hex decoder, credential set semantics
+Every static callee replaced in one unit is the function under contract of another unit (see `functions` notes).
+"""
 AUTH = 'dbus/dbus-auth.c'
 TU = [dict(file=AUTH, include_as='VERIF_TU')]
 
@@ -91,12 +99,6 @@ stub_unit('sha1_second', 'harness/c08_mech.c', 'handle_server_data_cookie_sha1_m
 stub_unit('sha1_hash', 'harness/c08_mech.c', 'sha1_compute_hash', {},
           'text handed to _dbus_sha_compute is server challenge ":" client challenge ":" cookie; unknown cookie id => TRUE with empty hash; temporaries freed',
           defines=['VERIF_FN=5'], must=['sha1_compute_hash:'], assumptions=[A_KEYRING, A_SHA], props=('C08',))
-# weakened twin of C08.sha1_first: same contract under the extra assumption that the user-database lookup does not fail with
-# NoMemory.  C08.sha1_first itself is red on the pinned tree (uninitialised DBusStrings freed on that path, see report).
-stub_unit('sha1_first.nouoom', 'harness/c08_mech.c', 'handle_server_data_cookie_sha1_mech + sha1_handle_first_client_response', MECH_REPL,
-          'as C08.sha1_first, minus the out-of-memory return of _dbus_credentials_add_from_user',
-          defines=['VERIF_FN=3', 'VERIF_NO_USERDB_OOM'], must=['DBUS_COOKIE_SHA1 step 1:', 'mechanism:', 'AUTH_INV preserved'],
-          assumptions=[A_CRED, A_RETRY, A_SELF, A_USERDB, A_KEYRING, A_SHA, 'EXTRA (weakening): _dbus_credentials_add_from_user never fails with DBUS_ERROR_NO_MEMORY'], extra_fn=MECH_FN)
 
 # ---- line framing ----
 ALL_HANDLERS = ['handle_server_state_waiting_for_auth', 'handle_server_state_waiting_for_data', 'handle_server_state_waiting_for_begin',
@@ -178,23 +180,15 @@ def bline(name, n, defines, tier, extra_assume, expect):
 
 
 bline('b_cmdline', 8, [], 'quick', [], 120)
-bline('b_cmdline.nostray', 8, ['VERIF_NO_STRAY_CRLF'], 'quick',
-      ['EXTRA (weakening, twin of C08.b_cmdline which is red on the pinned tree): CR and LF occur in the buffer only as the CRLF pair'], 120)
 UNITS.append(dict(name='C08.b_hex', props=['C08', 'C10'], kind='B', route='stub', tus=[STRTU], harness='harness/c08_bhex.c', extra_sources=['stubs/c08_mem.c'],
                   defines=['VERIF_N=8', 'VERIF_MEM_CAP=16'], replace_calls={'fixup_alignment': 'verif_stub_fixup_alignment'}, unwind=12, timeout=1500, expect_s=60,
                   must_have=['hex_decode:'], bounds={'source_bytes': 8, 'note': 'every content of 0..8 source bytes; all loops completely unwound'},
                   functions=[dict(name='_dbus_string_hex_decode', file='dbus/dbus-string.c', status='bounded', contract='end = first non-hex byte; byte k = 16*digit(2k)+digit(2k+1); source untouched; no library assertion fails')],
                   assumptions=['dbus_malloc family = CBMC allocator with constant block capacity, never failing in this unit (stubs/c08_mem.c)', A_ALIGN]))
-for sc, nm, what in ((1, 'external', 'AUTH EXTERNAL <uid> / BEGIN + 3 trailing bytes'), (2, 'early_begin', 'AUTH / BEGIN'),
-                     (3, 'cancel_switch', 'AUTH ANONYMOUS / CANCEL / AUTH EXTERNAL <uid> / BEGIN + 3 trailing bytes'),
-                     (4, 'poke_fd', 'AUTH EXTERNAL / DATA / NEGOTIATE_UNIX_FD / BEGIN + 3 trailing bytes')):
-    UNITS.append(dict(name='C08.b_e2e.' + nm, props=['C08', 'C10', 'C11'], kind='B', route='stub', tus=[dict(file=AUTH, include_as='VERIF_TU'), STRTU],
-                      harness='harness/c08_be2e.c', extra_sources=['stubs/c08_mem.c'], defines=['VERIF_SCRIPT=%d' % sc, 'VERIF_K=3', 'VERIF_MEM_CAP=192'],
-                      replace_calls={'fixup_alignment': 'verif_stub_fixup_alignment', '_dbus_string_append_printf': 'verif_stub_append_printf'},
-                      unwind=200, timeout=1500, expect_s=120, tier='quick', must_have=['e2e'],
-                      bounds={'script': what, 'note': 'one fixed client script; socket credentials, user-database answer, fd capability and the 3 trailing bytes are arbitrary; all loops completely unwound'},
-                      functions=[dict(name='_dbus_auth_server_new, _dbus_auth_do_work, process_command, handle_server_state_*, handle_auth, process_data, mechanisms, send_*', file=AUTH, status='bounded',
-                                      contract='final state, exact server replies, granted identity and unused bytes equal the specification run of the script'),
-                                 dict(name='dbus-string.c functions on the path', file='dbus/dbus-string.c', status='bounded', note='real code')],
-                      assumptions=[A_CRED, A_USERDB, A_SELF, A_ALIGN, 'dbus_malloc family = CBMC allocator with constant block capacity, never failing in this unit (stubs/c08_mem.c)',
-                                   'the text of ERROR explanations is not modelled (_dbus_string_append_printf bound to a fixed line)']))
+for ngb in (-1, 1, 2):
+    UNITS.append(dict(name='C08.cred.g%d' % max(ngb, 0), props=['C08'], kind='B', route='plain', tus=[dict(file='dbus/dbus-credentials.c', include_as='VERIF_TU')], harness='harness/c08_cred.c', defines=['VERIF_NGB=%d' % ngb],
+                      unwind=20, timeout=900, expect_s=60, must_have=['cred:'],
+                      bounds={'group_ids_of_the_merged_object': max(ngb, 0), 'label_and_sid_chars': 2, 'note': 'all values of uid/pid, <= 2 group ids, <= 2-character label and SID, no ADT audit data; allocation may fail at every call'},
+                      functions=[dict(name='_dbus_credentials_are_superset/_are_anonymous/_are_empty/_same_user/_include/_get_unix_uid/_add_credential/_add_credentials/_clear', file='dbus/dbus-credentials.c', status='bounded',
+                                      contract='the set semantics of the doc comments = the contracts the C08 P units assume for these functions (harness/c08_model.h)')],
+                      assumptions=['Solaris ADT audit data is never set on this platform (field stays NULL)', 'qsort sorts (stub for <= 2 elements)']))
